@@ -82,6 +82,43 @@ func genAllocConc(c *ctx) {
 			noHint = "alloc - 32 32"
 		}
 		var held []net.IPNet
+		if c.rng.Intn(3) == 0 && nblocks >= 2 {
+			// the very first calls of a fresh allocator, at once (round 9: a bitmap created lazily outside the lock): the
+			// blocks handed out are pairwise different
+			k := 2 + c.rng.Intn(7)
+			fs := make([]func() string, k)
+			res := make([]net.IPNet, k)
+			errs := make([]error, k)
+			for i := range fs {
+				i := i
+				fs[i] = func() string { res[i], errs[i] = s.a.Allocate(net.IPNet{}); return "done" }
+			}
+			together(fs)
+			seen := map[string]bool{}
+			dup := ""
+			for i := range res {
+				if errs[i] == nil {
+					if seen[res[i].String()] {
+						dup = fmtAllocRes(res[i], nil)[3:]
+					}
+					seen[res[i].String()] = true
+				}
+			}
+			fresh := "ok"
+			if dup != "" {
+				fresh = "dup " + dup + " handed out twice by the first calls of a fresh allocator"
+			}
+			c.emit(fmt.Sprintf("achurn %d 0", k), fresh)
+			// give everything back (a block handed out twice is freed once)
+			for k := range seen {
+				for i := range res {
+					if errs[i] == nil && res[i].String() == k {
+						s.a.Free(res[i])
+						break
+					}
+				}
+			}
+		}
 		// fill up to a random level sequentially
 		fill := c.rng.Intn(nblocks + 1)
 		for i := 0; i < fill && c.count < c.n && !s.wedged; i++ {
